@@ -50,6 +50,12 @@ func (w *World) verifyFunction(fn *ssa.Function, ct *Contract, tag string, safeA
 		t := vc.freshConst("p."+p.Name(), sortOf(p.Type()))
 		fr.vals[p] = t
 		fr.assumeType(t, p.Type(), st)
+		if t.Sort == SInt {
+			switch p.Type().Underlying().(type) {
+			case *types.Pointer, *types.Map, *types.Chan:
+				vc.fact(fmt.Sprintf("(< (rootref %s) hw!0)", t.S))
+			}
+		}
 		if i == 0 && fn.Signature.Recv() != nil {
 			if _, isPtr := p.Type().Underlying().(*types.Pointer); isPtr {
 				vc.fact(fmt.Sprintf("(not (= %s 0))", t.S))
@@ -73,6 +79,11 @@ func (w *World) verifyFunction(fn *ssa.Function, ct *Contract, tag string, safeA
 				return res
 			}
 			vc.fact(g)
+			for _, tg := range cl.Tags {
+				if tg == "inv" {
+					vc.usedSpecs["contract:invariant assumed for "+shortFn(fn)+": "+cl.Text] = true
+				}
+			}
 		}
 	}
 	fr.old = st.clone()
@@ -117,10 +128,19 @@ func (w *World) verifyFunction(fn *ssa.Function, ct *Contract, tag string, safeA
 	for _, r := range fr.rets {
 		res.Covers = append(res.Covers, &Obligation{Name: fmt.Sprintf("%s#vacuity@return%d", shortFn(fn), r.idx), Kind: "vacuity", Guard: r.cond, Goal: "false", NFacts: len(vc.facts), Expect: "sat", Func: shortFn(fn), Desc: "return reachable under the assumptions"})
 	}
+	seenGuard := map[string]bool{}
 	for _, ob := range vc.obls {
-		if ob.Kind == "pre" && len(ob.Tags) > 0 {
-			res.Covers = append(res.Covers, &Obligation{Name: strings.Replace(ob.Name, "#pre@", "#vacuity@", 1), Kind: "vacuity", Guard: ob.Guard, Goal: "false", NFacts: ob.NFacts, Expect: "sat", Func: shortFn(fn), Desc: "sink reachable under the assumptions"})
+		if ob.Kind == "safe" {
+			continue
 		}
+		// every obligation's program point must be reachable under the assumptions
+		// made so far (otherwise it would be discharged vacuously)
+		k := fmt.Sprintf("%s/%d", ob.Guard, ob.NFacts/40)
+		if seenGuard[ob.Guard] || seenGuard[k] {
+			continue
+		}
+		seenGuard[ob.Guard] = true
+		res.Covers = append(res.Covers, &Obligation{Name: strings.Replace(ob.Name, "#"+ob.Kind+"@", "#vacuity@", 1), Kind: "vacuity", Guard: ob.Guard, Goal: "false", NFacts: ob.NFacts, Expect: "sat", Func: shortFn(fn), Desc: "program point of the obligation is reachable under the assumptions"})
 	}
 	return res
 }
@@ -210,6 +230,15 @@ func (fr *frame) declaredMods(m ModSpec, ctx *specCtx) []declMod {
 		}
 	case "key":
 		return []declMod{{key: m.Name}}
+	case "mapkey":
+		obj, err := ctx.tr(m.Expr)
+		if err != nil || obj.ty == nil {
+			break
+		}
+		if mt, ok := obj.ty.Underlying().(*types.Map); ok {
+			d, v := vc.keyMap(mt)
+			return []declMod{{key: d, idx: obj.S}, {key: v, idx: obj.S}}
+		}
 	}
 	return nil
 }
